@@ -66,6 +66,52 @@ def set_beat(storage, trial_id, beat):
     return None
 
 
+GRACE = 120
+
+
+def freeze_clock(storage, clock):
+    """the database clock as the real code sees it: every CURRENT_TIMESTAMP in a statement text (func.now() of the sweep and of
+    the update path of record_heartbeat) is answered with clock['now'] - one controlled clock, at one-second resolution"""
+    import sqlalchemy
+
+    def freeze(conn, cursor, statement, parameters, context, executemany):
+        if "CURRENT_TIMESTAMP" in statement:
+            statement = statement.replace("CURRENT_TIMESTAMP", "'%s'" % clock["now"].strftime("%Y-%m-%d %H:%M:%S"))
+        return statement, parameters
+    sqlalchemy.event.listen(storage.engine, "before_cursor_execute", freeze, retval=True)
+
+
+def set_beat_age(storage, clock, trial_id, age, first):
+    """a heartbeat recorded exactly `age` seconds before the (frozen) time of the sweeps, through the real record_heartbeat:
+    first = the insert path (the row's value is the column default, 'YYYY-MM-DD HH:MM:SS': moved to the wanted second in the
+    same format), else the update path (the real code reads the frozen clock and writes the value itself)"""
+    import datetime
+
+    import sqlalchemy
+
+    t0 = clock["now"]
+    clock["now"] = t0 - datetime.timedelta(seconds=age)
+    try:
+        with storage.engine.begin() as conn:
+            conn.execute(sqlalchemy.text("DELETE FROM trial_heartbeats WHERE trial_id = :t"), {"t": trial_id})
+            if not first:
+                conn.execute(sqlalchemy.text("INSERT INTO trial_heartbeats (trial_id, heartbeat) VALUES (:t, datetime('now', '-1 day'))"),
+                             {"t": trial_id})
+        try:
+            storage.record_heartbeat(trial_id)
+        except Exception as e:
+            return type(e).__name__ + ":" + str(e)[:80]
+        finally:
+            storage.remove_session()
+        if first:
+            with storage.engine.begin() as conn:
+                conn.execute(sqlalchemy.text("UPDATE trial_heartbeats SET heartbeat = :h WHERE trial_id = :t"),
+                             {"t": trial_id, "h": clock["now"].strftime("%Y-%m-%d %H:%M:%S")})
+    finally:
+        clock["now"] = t0
+    return None
+
+
 def instrument(storage, w, log, num_of, starts=False):
     """log every FAIL request that answered True (the storage call is the observation point); starts: also its start"""
     from optuna.trial import TrialState
@@ -144,6 +190,21 @@ def execute(seed, mode, workdir):
                 sqlalchemy.event.listen(s.engine, name, hook)
         storages.append(s)
     admin = make_storage(url, None)
+    seqlike = mode in ("seq", "clock")
+    clock = None
+    if mode == "clock":
+        import datetime
+
+        clock = {"now": datetime.datetime.utcnow().replace(microsecond=0)}
+        for s in storages + [admin]:
+            freeze_clock(s, clock)
+
+    def put_beat(trial_id, beat):
+        """-> (error text or None, the fields of the event that describe the heartbeat)"""
+        if mode != "clock" or beat == "none":
+            return set_beat(admin, trial_id, beat), {"beat": beat}
+        age = rng.choice([GRACE + 1, GRACE + 1, GRACE + 3600] if beat == "stale" else [0, GRACE - 1, GRACE, GRACE])
+        return set_beat_age(admin, clock, trial_id, age, rng.random() < 0.5), {"beat": "aged", "age": age, "grace": GRACE}
     try:
         common.decoy(admin, seed % 3)
         if seed % 2 == 0:
@@ -173,19 +234,19 @@ def execute(seed, mode, workdir):
             t.report(float(rng.randint(0, 5)), 0)
             if state == "COMPLETE":
                 study0.tell(t, 1.0)
-            err = set_beat(admin, t._trial_id, beat)
+            err, bf = put_beat(t._trial_id, beat)
             if err:
                 log({"e": "heartbeat_failed", "n": t.number, "err": err})
             num_of[t._trial_id] = t.number
             beats[t.number] = beat
             ft = describe(t.number)
-            log({"e": "trial", "n": t.number, "state": state, "beat": beat, "hist": [], "pk": pk(ft),
+            log({"e": "trial", "n": t.number, "state": state, **bf, "hist": [], "pk": pk(ft),
                  "pkiv": tok(sorted(ft.intermediate_values.items()))})
 
         def sweep(w):
             st = storages[w - 1]
             study = optuna.load_study(study_name="hb", storage=st)
-            if rng.random() < 0.3 and mode == "seq":
+            if rng.random() < 0.3 and seqlike:
                 study.optimize(lambda tr: float(tr.suggest_int("x", 0, 9)), n_trials=1)   # the sweep runs at trial start
             else:
                 fail_stale_trials(study)
@@ -198,16 +259,16 @@ def execute(seed, mode, workdir):
                 if rng.random() < 0.7:
                     tr = study0.ask()
                     beat = rng.choice(["stale", "stale", "fresh", "none"])
-                    err = set_beat(admin, tr._trial_id, beat)
+                    err, bf = put_beat(tr._trial_id, beat)
                     if err:
                         log({"e": "heartbeat_failed", "n": tr.number, "err": err})
                     num_of[tr._trial_id] = tr.number
                     f2 = describe(tr.number)
-                    log({"e": "trial", "n": tr.number, "state": "RUNNING", "beat": beat,
+                    log({"e": "trial", "n": tr.number, "state": "RUNNING", **bf,
                          "hist": list(f2.system_attrs.get("retry_history", [])), "pk": pk(f2),
                          "pkiv": tok(sorted(f2.intermediate_values.items()))})
         deadlock = 0
-        if mode == "seq":
+        if seqlike:
             for _ in range(rng.randint(2, 4)):
                 sweep(rng.randint(1, nw))
                 environment()
@@ -566,7 +627,9 @@ def run(ctx):
     ctx.rule = ("RDBStorage (SQLite) with heartbeats and RetryFailedTrialCallback(max_retry in {None,0,1,2}, inherit 0/1): "
                 "trials in every state/heartbeat pattern (heartbeat rows written directly: no sleeping), (a) 1-2 workers "
                 "sweeping in turn (fail_stale_trials and the sweep inside optimize) while queued retries are taken and die "
-                "again, (b) two workers sweeping concurrently, interleaved per SQL statement, one possibly dying mid-sweep; "
+                "again - also (a') with the database clock frozen by the harness and heartbeats exactly grace-1, grace, grace+1 "
+                "seconds old (insert and update path of record_heartbeat; older-than-grace decided in the trace spec), "
+                "(b) two workers sweeping concurrently, interleaved per SQL statement, one possibly dying mid-sweep; "
                 "(c) a stale trial whose worker is slow, not dead, and keeps writing (suggest, set_user_attr, report) on its own "
                 "connection while one sweeper is preempted at every source line of _heartbeat.py/_callbacks.py and every SQL "
                 "statement (all single preemptions x zombie progress, plus random schedules): the retry must carry the content "
@@ -581,6 +644,8 @@ def run(ctx):
     n_seq, n_conc = (96, 96) if ctx.quick else (1200, 1200)
     tasks = [("seq", [ctx.seed * 100000 + i for i in range(n_seq)][k::8]) for k in range(8)]
     tasks += [("conc", [ctx.seed * 100000 + 50000 + i for i in range(n_conc)][k::8]) for k in range(8)]
+    n_clock = 64 if ctx.quick else 800
+    tasks += [("clock", [ctx.seed * 100000 + 80000 + i for i in range(n_clock)][k::8]) for k in range(8)]
     traces = []
     with cf.ProcessPoolExecutor(max_workers=16) as ex:
         for res in ex.map(_task, tasks):
